@@ -25,10 +25,11 @@ type c05Outcome struct {
 	ErrLen int // 0 = nil error
 	MsgLen int
 	Binary bool
+	Delay  int // the callback takes this many milliseconds (a busy store)
 }
 
 func (o c05Outcome) String() string {
-	return fmt.Sprintf("ok=%v errlen=%d msglen=%d binary=%v", o.OK, o.ErrLen, o.MsgLen, o.Binary)
+	return fmt.Sprintf("ok=%v errlen=%d msglen=%d binary=%v delay_ms=%d", o.OK, o.ErrLen, o.MsgLen, o.Binary, o.Delay)
 }
 
 type c05Expect struct {
@@ -62,6 +63,9 @@ func (m *c05Mon) cb(login, password, service, realm string) (bool, string, error
 	}
 	o := e.outcome
 	m.mu.Unlock()
+	if o.Delay > 0 {
+		time.Sleep(time.Duration(o.Delay) * time.Millisecond)
+	}
 	msg := make([]byte, o.MsgLen)
 	for i := range msg {
 		switch {
@@ -132,6 +136,17 @@ func c05() {
 	rng.Shuffle(len(conc), func(i, j int) { conc[i], conc[j] = conc[j], conc[i] })
 	if len(conc) > vr.Pick(3000, 60000) {
 		conc = conc[:vr.Pick(3000, 60000)]
+	}
+	// a busy store: the callback takes seconds (they run among the others, so the phase is not longer than the slowest)
+	for i, o := range []c05Outcome{{OK: true, Delay: 4000}, {OK: false, ErrLen: 10, Delay: 3500}, {OK: true, MsgLen: 20, Delay: 6000}, {OK: false, Delay: 2000}} {
+		login := fmt.Sprintf("slow-callback-%02d-%08x", i, rng.Uint32())
+		stream := ref.EncodeParts([]byte(login), []byte("pw"), []byte("svc"), nil)
+		slow := c05Case{Class: "slow-callback", Stream: stream, Chunks: []int{len(stream)}, Outcome: o, Login: login}
+		if i%2 == 1 {
+			slow.Chunks = []int{5, len(stream) - 5}
+			slow.Pause = true
+		}
+		conc = append([]c05Case{slow}, conc...)
 	}
 	var wg sync.WaitGroup
 	ch := make(chan c05Case)
